@@ -229,6 +229,15 @@ func (w *World) install(ns NodeSpec) {
 			n.Target = ns.Target
 		case "fifo":
 			n = w.newInode(KFifo, 0o644)
+		case "hardlink":
+			// a second name for an existing regular file (Target = its path)
+			if t := w.Peek(ns.Target); t != nil && t.Kind == KFile {
+				t.Nlink++
+				cur.addChild(c, t)
+				return
+			}
+			// the target is not part of this world (e.g. dropped for a solo run)
+			return
 		default:
 			panic("world: bad node kind " + ns.Kind)
 		}
